@@ -25,9 +25,9 @@ type c16Case struct {
 
 type c16Rec struct {
 	ID, Desc, Seq string
-	Idx          int
-	Score        int64
-	A, C, G, T   int
+	Idx           int
+	Score         int64
+	A, C, G, T    int
 }
 
 type c16Result struct {
